@@ -245,7 +245,7 @@ static void pm2_space_copies(void)
 		c.variant = (int) var;
 		if (!vf_case("pm2 %d bytes then copy(%u,%u)%s then byte, copy", pres[pi], dists[di], lens[li], var ? " via symbol 28" : "")) continue;
 		pm2_begin(&UNI_B, UNI_O, NULL, 1);
-		for (i = 0; i < pres[pi]; ++i) { ref_cmd b = lit((unsigned) (i * 13 + 7) & 0xFF); ref_pm2_put(&PS.e, &b); }
+		for (i = 0; i < pres[pi]; ++i) { ref_cmd b = lit((unsigned) (i * 13 + 7 + (i >> 8) * 29) & 0xFF); ref_pm2_put(&PS.e, &b); }
 		ref_pm2_put(&PS.e, &c);
 		{ ref_cmd b = pm2_byte_at(3); ref_pm2_put(&PS.e, &b); }
 		{ ref_cmd b = cpy(dists[di] < 64 ? dists[di] : 5, 2); ref_pm2_put(&PS.e, &b); }
@@ -325,7 +325,7 @@ static void pm2_space_schedule(void)
 		while (PS.e.out < target) {
 			size_t left = target - PS.e.out;
 			ref_cmd c;
-			if (style == 0 || left < 2 || PS.e.out == 0) c = lit((unsigned) (PS.e.out * 7 + 3) & 0xFF);
+			if (style == 0 || left < 2 || PS.e.out == 0) c = lit((unsigned) (PS.e.out * 7 + 3 + (PS.e.out >> 8) * 29) & 0xFF);
 			else if (style == 1) { unsigned l = left > 256 ? 256 : (unsigned) left; c = cpy((unsigned) (PS.e.out > 600 ? 577 : 0), l); }
 			else {
 				unsigned l = 2 + (unsigned) (PS.e.out * 5) % 40;
